@@ -245,6 +245,50 @@ class CFG:
         self._dom = dom
         return dom
 
+    def dominators_from(self, start):
+        """dominator sets in the sub-graph reachable from `start` (start acts as entry)"""
+        key = start.id
+        cache = self.__dict__.setdefault("_domfrom", {})
+        if key in cache:
+            return cache[key]
+        order, seen = [], set()
+        stack = [start]
+        while stack:
+            n = stack.pop()
+            if n.id in seen:
+                continue
+            seen.add(n.id)
+            order.append(n)
+            stack.extend(n.succ)
+        dom = {n.id: set(seen) for n in order}
+        dom[start.id] = {start.id}
+        changed = True
+        while changed:
+            changed = False
+            for n in order:
+                if n is start:
+                    continue
+                ps = [p for p in n.pred if p.id in seen]
+                new = set.intersection(*(dom[p.id] for p in ps)) if ps else set()
+                new = new | {n.id}
+                if new != dom[n.id]:
+                    dom[n.id] = new
+                    changed = True
+        cache[key] = dom
+        return dom
+
+    def facts_between(self, start, sink):
+        """branch facts that hold on every path from `start` to `sink` (start executed first)"""
+        d = self.dominators_from(start).get(sink.id)
+        if d is None:
+            return None
+        out = []
+        for i in sorted(d):
+            m = self.nodes[i]
+            if m.kind == "edge" and m.info[0].kind == "test":
+                out.append((m.info[0], m.info[1]))
+        return out
+
     def dominates(self, a, b):
         d = self.dominators()
         return b.id in d and a.id in d[b.id]
